@@ -1,6 +1,6 @@
 (* C14 — Maximum Packet Size is honoured in both directions.  Statements only; proofs in
    Conn/Session.v and Conn/SizeInv.v.  Nothing else may be added to this file. *)
-From MQ Require Import Base.Prelude Framing.Framing Conn.Types Conn.ConnRecord Conn.Step Corr.ConnTrace Conn.Run Conn.Session Conn.SizeInv.
+From MQ Require Import Base.Prelude Framing.Framing Conn.Types Conn.ConnRecord Conn.Step Corr.ConnTrace Conn.Run Conn.Session Conn.SizeInv Conn.Own Conn.PairQos Conn.PairHandshake5 Conn.PairLimits.
 
 (* a v5.0 packet of ANY kind larger than the peer's Maximum Packet Size is never passed to the
    transport, in any state, for every limit and every size *)
@@ -68,6 +68,27 @@ Print Assumptions C14_send_fits_current_limit.
 Theorem C14_every_history_fits : forall g ops c, history_fits g c ops.
 Proof. exact every_history_fits. Qed.
 Print Assumptions C14_every_history_fits.
+
+(* THE PAIR (Conn/PairLimits.v): after the v5.0 handshake the two ends agree on every limit — the Maximum Packet Size one side
+   enforces on what it sends ([c_mps_send], the subject of the theorems above) is the one the other side announced and checks
+   on what it receives ([c_mps_recv]); likewise the Receive Maximum.  So "never requests a packet above the limit" on one
+   side means "never receives a packet it would answer with Packet too large" on the other. *)
+Theorem C14_limits_agree_after_handshake : forall gA gB A0 B0 cn ca,
+  OWN gA A0 -> OWN gB B0 -> c_version A0 = V50 -> c_version B0 = V50 -> c_status A0 = Disconnected -> c_status B0 = Disconnected ->
+  role_client_ok gA = true -> role_server_ok gB = true ->
+  (* no limit of an earlier connection is left on either object (as after construction or notify_closed) *)
+  c_mps_send A0 = c_mps_recv B0 -> c_mps_send B0 = c_mps_recv A0 ->
+  k_type cn = T_CONNECT -> k_ver cn = V50 -> k_flag cn = true -> k_tam cn = None -> size_ok A0 cn = true ->
+  k_type ca = T_CONNACK -> k_ver ca = V50 -> k_rc ca = 0 -> k_flag ca = false -> k_tam ca = None -> k_rm ca <> Some 0 -> k_mps ca <> Some 0 ->
+  k_size ca <= limit_after (k_mps cn) (c_mps_send B0) ->
+  exists A1 e1 B1 e2 B2 e3 A2 e4,
+    step gA A0 (OSend cn) = Ok (A1, e1, []) /\ deliver gB B0 cn = Ok (B1, e2) /\
+    step gB B1 (OSend ca) = Ok (B2, e3, []) /\ deliver gA A1 ca = Ok (A2, e4) /\
+    (* what A may send is what B announced and checks on receipt, and vice versa *)
+    c_mps_send A2 = c_mps_recv B2 /\ c_mps_send B2 = c_mps_recv A2 /\
+    c_send_max A2 = c_recv_max B2 /\ c_send_max B2 = c_recv_max A2.
+Proof. exact limits_agree_after_handshake. Qed.
+Print Assumptions C14_limits_agree_after_handshake.
 
 Example C14_nonvacuous :
   let g := mkCfg RClient 65535 2 in
